@@ -8,7 +8,7 @@ cd coq
 [ -f Makefile ] || coq_makefile -f _CoqProject -o Makefile >/dev/null
 timeout 3000 make -j16 "$@" > ../build/coq_make.log 2>&1 || { tail -30 ../build/coq_make.log; exit 1; }
 cd ../build/ml
-if [ ! -f model_driver ] || [ ../../coq/Api.vo -nt model_driver ] || [ ../../ocaml/driver.ml -nt model_driver ] || [ ../../coq/Extract.v -nt model_driver ]; then
+if [ ! -f model_driver ] || [ -n "$(find ../../coq -maxdepth 2 -name '*.vo' -newer model_driver -print -quit)" ] || [ ../../ocaml/driver.ml -nt model_driver ] || [ ../../coq/Extract.v -nt model_driver ]; then
   cp ../../coq/Extract.v . && coqc -Q $V/coq LC Extract.v > extract.log 2>&1 || { cat extract.log; exit 1; }
   cp ../../ocaml/driver.ml .
   ocamlfind ocamlopt -w -a -O2 model.mli model.ml driver.ml -o model_driver > ocaml.log 2>&1 || { cat ocaml.log; exit 1; }
